@@ -77,6 +77,13 @@ func (s *KeyStore) importKeyRing(newRingData *asn1.KeyRing, delegate api.KeyRing
 	err := s.readKeyRing(keyRing)
 	switch err {
 	case nil:
+		// A key ring without any keys holds nothing that could be overwritten. Such a ring is left
+		// behind when an import is interrupted after the (empty) key ring has been created but before
+		// its keys are stored, or when a key ring was merely opened for writing. Import into it,
+		// otherwise the interrupted import could never be repeated.
+		if len(keyRing.data.Keys) == 0 {
+			return keyRing.importASN1(newRingData)
+		}
 		// If the keystore successfully returned an existing key ring with the same name,
 		// we have to resolve this conflict somehow. Present both current and new versions
 		// to the delegate and let it decide how to proceed.
